@@ -51,6 +51,7 @@ class SchemaGen:
         rules = []
         # later rules first so that references point forward (productive); recursion added explicitly
         self.avail_t, self.avail_g, self.flat_g = [], [], []
+        self.class_t = {"size": [], "num": [], "any": []}      # rules that are a choice of prelude classes: usable as control targets
         bodies = {}
         for g in reversed(self.gnames):
             flat = rng.random() < 0.5 and self.o.maps
@@ -70,7 +71,18 @@ class SchemaGen:
         for i in reversed(range(n_type)):
             t = self.tnames[i]
             body = self.ty(self.o.depth if i == 0 else self.o.depth - 1)
-            if i > 0 and rng.random() < 0.25 and self.o.arrays:
+            if i > 0 and self.o.ctl and rng.random() < 0.2:
+                # a rule that is a choice of several prelude classes (control operators on it: 88754b0)
+                kind = rng.choice(["size", "num", "any"])
+                ks = {"size": ["uint", "tstr", "text"] + (["bstr"] if self.o.cbor else []),
+                      "num": ["uint", "nint", "int", "number"] + (["float"] if self.o.floats else []),
+                      "any": ["uint", "nint", "int", "tstr", "bool", "number", "nil"] + (["float"] if self.o.floats else []) + (["bstr"] if self.o.cbor else [])}[kind]
+                a, b = rng.sample(ks, 2)
+                body = ("or", ("ref", a), ("ref", b)) if rng.random() < 0.8 else ("ref", a)
+                self.note("class-choice-rule:" + kind)
+                self.class_t[kind].append(t)
+                self.class_t["any"].append(t)
+            elif i > 0 and rng.random() < 0.25 and self.o.arrays:
                 # productive recursion through an array / a tag / a map value
                 how = rng.choice(["arr", "arr"] + (["tag", "tag"] if self.o.cbor else []) + (["map"] if self.o.maps else []))
                 self.note("recursive-rule:" + how)
@@ -149,6 +161,18 @@ class SchemaGen:
             ops += ["and", "within"]
         op = rng.choice(ops)
         self.note("ctl:" + op)
+        pool = getattr(self, "class_t", {}).get({"size": "size", "lt": "num", "le": "num", "gt": "num", "ge": "num"}.get(op, "any"), [])
+        if pool and rng.random() < 0.5:
+            # target is a rule of the document that is a choice of classes
+            self.note("ctl:class-rule-target")
+            tgt = ("ref", rng.choice(pool))
+            if op == "size":
+                return ("ctl", "size", tgt, ("lit", ("int", rng.choice([0, 1, 2, 3, 4, 8]))))
+            if op in ("lt", "le", "gt", "ge"):
+                return ("ctl", op, tgt, ("lit", ("int", rng.choice([0, 1, 3, 10, -2, -5, 255]))))
+            if op in ("eq", "ne"):
+                return ("ctl", op, tgt, ("lit", gen_lit(rng, o, ["int", "txt"])))
+            return ("ctl", op, tgt, self.ty(0)) if rng.random() < 0.6 else ("ctl", op, self.ty(0), tgt)
         if op == "size":
             tgt = rng.choice([("ref", "tstr"), ("ref", "uint"), ("ref", "text")] + ([("ref", "bstr"), ("ref", "bytes")] if o.cbor else []))
             if tgt[1] == "uint" or rng.random() < 0.6:
